@@ -271,9 +271,15 @@ impl Display for Expr {
             if let Some(ref left) = self.left {
                 fmt.write_str(&left.to_string())?;
             }
+            if let Some(ref args) = self.args {
+                for arg in args {
+                    fmt.write_str(", ")?;
+                    fmt.write_str(&arg.to_string())?;
+                }
+            }
             fmt.write_char(')')?;
         } else if let Some(ref left) = self.left {
-            fmt.write_str(&left.to_string())?;
+            Self::fmt_operand(left, fmt)?;
         }
 
         if let Some(ref field) = self.field {
@@ -284,10 +290,32 @@ impl Display for Expr {
             fmt.write_str(val)?;
         }
 
+        if let Some(ref op) = self.arithmetic_op {
+            fmt.write_str(match op {
+                ArithmeticOp::Add => " + ",
+                ArithmeticOp::Subtract => " - ",
+                ArithmeticOp::Multiply => " * ",
+                ArithmeticOp::Divide => " / ",
+                ArithmeticOp::Modulo => " % ",
+            })?;
+        }
+
         if let Some(ref right) = self.right {
-            fmt.write_str(&right.to_string())?;
+            Self::fmt_operand(right, fmt)?;
         }
 
         Ok(())
+    }
+}
+
+impl Expr {
+    /// Writes an operand, in brackets if it is an arithmetic expression itself,
+    /// so that `(1 + 2) * 3` and `1 + 2 * 3` have different texts.
+    fn fmt_operand(operand: &Expr, fmt: &mut Formatter) -> fmt::Result {
+        if operand.arithmetic_op.is_some() {
+            write!(fmt, "({})", operand)
+        } else {
+            write!(fmt, "{}", operand)
+        }
     }
 }
